@@ -79,7 +79,8 @@ class Formatter:
         "Mo": None,
         "DDDo": None,
         "Do": lambda locale: tuple(
-            rf"\d+{o}" for o in locale.get("custom.ordinal").values()
+            rf"\d+{o}"
+            for o in (locale.get("custom.ordinal") or {"other": ""}).values()
         ),
         "dddd": "days.wide",
         "ddd": "days.abbreviated",
